@@ -9,6 +9,11 @@
 (*          cells the formula mentions directly, read when the call returns*)
 (*   names  <<[n, ast]>> the defined names the formula mentions            *)
 (*   res    the projected return value                                     *)
+(*   stored (optional) what get_cell_value returns right after the call    *)
+(* Events of the randomized workbook driver (checks/wbdrive.py) carry the   *)
+(* WHOLE dependency closure instead - constants with the values the driver  *)
+(* has set, formula cells as [sheet, col, row, ast] - so that Eval is the   *)
+(* value of a freshly compiled workbook holding the current inputs (C04).   *)
 (* The specification's Eval of the formula over exactly those values must  *)
 (* agree with res wherever it determines the value: the value of a formula *)
 (* cell is a function of the cells it addresses (C03), of their CURRENT    *)
@@ -23,13 +28,14 @@ vars == <<l, verdict, exp>>
 
 WbOf(e) == [cells |-> [k \in {<<e.cells[i].sheet, e.cells[i].col, e.cells[i].row>> : i \in 1..Len(e.cells)} |->
                          LET i == CHOOSE j \in 1..Len(e.cells) : <<e.cells[j].sheet, e.cells[j].col, e.cells[j].row>> = k
-                         IN [c |-> "const", v |-> e.cells[i].v]],
+                         IN IF "ast" \in DOMAIN e.cells[i] THEN [c |-> "formula", ast |-> Erase(e.cells[i].ast)]
+                            ELSE [c |-> "const", v |-> e.cells[i].v]],
             names |-> [n \in {e.names[i].n : i \in 1..Len(e.names)} |->
                          LET i == CHOOSE j \in 1..Len(e.names) : e.names[j].n = n IN e.names[i].ast]]
 
 Verdict(e, x) ==
     IF x.t \in {"open", "ref"} THEN "open"
-    ELSE IF Agrees(e.res, x) THEN "ok"
+    ELSE IF Agrees(e.res, x) THEN (IF "stored" \in DOMAIN e /\ ~Agrees(e.stored, x) THEN "stored-value-differs" ELSE "ok")
     ELSE IF e.res.t = "exc" THEN "python-exception"
     ELSE IF x.t \in {"err", "anyerr"} THEN "error-expected"
     ELSE IF e.res.t = "err" THEN "unexpected-error"
